@@ -131,9 +131,34 @@ def confs_named(name):
         if name.startswith('mm:two-conns') and 'a-expects-the-other-peers-key' in name:
             c['A']['conn_ab']['peer_auth'] = {"id": "bob@openikev2", "psk": "bobs-key-for-the-other-peer"}
         return c
+    if 'two-local' in name:
+        # B listens on two addresses and has one connection per local address towards the same peer, each with its own
+        # identities and keys; A talks to the FIRST of them.  Which connection applies is decided by the address the
+        # datagram arrived on.
+        c = base()
+        first = c['B']['conn_ba']
+        first['my_auth'] = {"id": "bob-one@openikev2", "psk": "key-of-bob-one"}
+        second = S.conn(B2_ADDR, S.IP_A, "bob-two@openikev2", "alice-two@openikev2", "key-of-bob-two", "key-of-alice-two", [S.entry(9)])
+        c['B'] = {'conn_ba': first, 'conn_b2a': second}
+        if name.startswith('mm:'):       # A presents what the OTHER connection expects
+            c['A']['conn_ab']['my_auth'] = {"id": "alice-two@openikev2", "psk": "key-of-alice-two"}
+            c['A']['conn_ab']['peer_auth'] = {"id": "bob-two@openikev2", "psk": "key-of-bob-two"}
+        else:
+            c['A']['conn_ab']['peer_auth'] = {"id": "bob-one@openikev2", "psk": "key-of-bob-one"}
+        return c
     if name.startswith('idtype:') or name == 'psk-cookie':
         return base()
     raise HarnessError(name)
+
+
+B2_ADDR = '192.168.0.12'
+
+
+def addrs_named(name):
+    """listening addresses per endpoint (None = one each)"""
+    if 'two-local' in name:
+        return {'A': [S.IP_A], 'B': [S.IP_B, B2_ADDR]}
+    return None
 
 
 def post_load(w, name):
@@ -152,8 +177,8 @@ def post_load(w, name):
         list(w.endpoints['B'].conf.ike_configurations.values())[0].my_auth.id.id_type = PayloadID.Type(11)
 
 
-GOOD = ['psk', 'psk-prf512-integ256', 'psk-prf1-integ512', 'two-conns:other-first', 'two-conns:other-last', 'psk-cookie', 'rsa', 'psk-multi', 'psk-sha1-aes128-modp', 'psk-sha512-ecp384', 'fqdn-ids', 'ip-ids']
-MISMATCH = ['mm:two-conns:other-first:a-uses-the-other-peers-psk', 'mm:two-conns:other-last:a-uses-the-other-peers-psk',
+GOOD = ['psk', 'two-local-addresses', 'psk-prf512-integ256', 'psk-prf1-integ512', 'two-conns:other-first', 'two-conns:other-last', 'psk-cookie', 'rsa', 'psk-multi', 'psk-sha1-aes128-modp', 'psk-sha512-ecp384', 'fqdn-ids', 'ip-ids']
+MISMATCH = ['mm:two-local-addresses:a-presents-the-other-connections-credentials', 'mm:two-conns:other-first:a-uses-the-other-peers-psk', 'mm:two-conns:other-last:a-uses-the-other-peers-psk',
             'mm:two-conns:other-first:a-expects-the-other-peers-key', 'mm:two-conns:other-last:a-expects-the-other-peers-key',
             'mm:id-differs-in-case', 'mm:id-differs-by-a-blank', 'mm:fqdn-differs-in-case',
             'mm:b-expects-other-psk', 'mm:a-expects-other-psk', 'mm:b-expects-other-id', 'mm:a-expects-other-id',
@@ -358,7 +383,7 @@ def run_plan(conf_name, plan):
     """plan: {message index (1..4): action}; action = ('mut', label) | ('drop',) | ('replay', j) | ('reflect',) | ('dup',)
     returns (world, delivered, info)"""
     confs = confs_named(conf_name)
-    w = S.new_world(confs)
+    w = S.new_world(confs, addrs_named(conf_name))
     post_load(w, conf_name)
     w.sent_log = []
     delivered = []
@@ -842,7 +867,7 @@ _labels = {}
 
 def discover_labels(conf, upto=4):
     if conf not in _labels:
-        w = S.new_world(confs_named(conf))
+        w = S.new_world(confs_named(conf), addrs_named(conf))
         post_load(w, conf)
         w.sent_log = []
         w.step(('acquire', 'A', 0, 0))
